@@ -946,6 +946,8 @@ PREFIX_VIEWS = [('vis_', ('visibility',)), ('texdata_', ('textures',)), ('ent_',
                 ('prop_', ('props',)), ('helper_property_split_agrees:StaticProp', ('props',)),
                 ('bool_code_agrees:DetailProp', ('detail_props',)), ('bool_code_agrees:StaticProp', ('props',))]
 # the half of C11 that is about REJECTING values a user assigned (guards, range checks): says nothing about values read from a file
+# views whose reader is iter_unpack of one format and whose writer packs every record with it (stream name = view name)
+RECORD_ARRAY_VIEWS = ('planes', 'vertexes', 'cubemaps')
 C11_REJECTION_ONLY = ('ns_site_guarded:', 'vis_writer_checks_row_length', 'no_value_is_masked_before_pack', 'find_or_extend_checks_bounds')
 
 
@@ -997,6 +999,10 @@ def codec_obligations(fside: dict, glue: dict) -> dict[str, tuple[str, str, tupl
     # C10's own: the step from the generated texture-table configuration to the premise (theorem c10_textures_codec_premise)
     out['codec[textures]:c10_textures_codec_premise_applies'] = ('texcfg_ok tex_cfg && texcfg_window_is_guard tex_cfg', 'c10', ('textures',))
     out['codec[textures]:every_name_the_reader_returns_passes_the_writers_guard'] = ('texcfg_window_is_guard tex_cfg', 'c10', ('textures',))
+    # views that are a plain array of fixed records: theorem c10_record_array_codec_from_generated_stream applies in every
+    # layout table (one well-formed format of positive size on both sides)
+    for v in RECORD_ARRAY_VIEWS:
+        out[f'codec[{v}]:c10_record_array_codec_premise_applies'] = (f'rec_stream_ok layouts streams "{v}"', 'c10f', (v,))
     return out
 
 
@@ -1006,12 +1012,12 @@ def codec_stage(ck: Ck) -> dict[str, bool]:
     ok_f = ck.translate('BspFormats_gen', c11_formats.translate)
     ok_g = ck.translate('BspGlue_gen', c11_glue.translate)
     tr = ck.extra.get('translated', {})
-    if not (ok_f and ok_g and ck.build(['Gen/BspFormats_gen.vo', 'Gen/BspGlue_gen.vo', 'SM/LazyLumpsCodec.vo'])):
+    if not (ok_f and ok_g and ck.build(['Gen/BspFormats_gen.vo', 'Gen/BspGlue_gen.vo', 'SM/LazyLumpsCodec.vo', 'SM/LazyLumpsRecCodec.vo'])):
         return {}
     obs = codec_obligations(tr.get('BspFormats_gen', {}), tr.get('BspGlue_gen', {}))
     res: dict[str, bool] = {}
-    for kind, imports in (('formats', C11.IMPORTS), ('glue', C11.IMPORTS_GLUE + ['SV.SM.LazyLumpsCodec'])):
-        part = {n: e for n, (e, k, _) in obs.items() if k == kind or (kind == 'glue' and k == 'c10')}
+    for kind, imports in (('formats', C11.IMPORTS + ['SV.SM.LazyLumpsRecCodec']), ('glue', C11.IMPORTS_GLUE + ['SV.SM.LazyLumpsCodec'])):
+        part = {n: e for n, (e, k, _) in obs.items() if k == kind or (kind, k) in (('glue', 'c10'), ('formats', 'c10f'))}
         if part:
             res.update(ck.instance_obligations(imports, part, name='codec_' + kind))
     per_view: dict[str, list[str]] = {v: [] for v in VIEWS}
